@@ -60,8 +60,8 @@ Definition extract_line_comment (comments : bool) (count : Z) (l : str) : str * 
   | Some (before, cmt) =>
       let k := counter_next count in
       let ph := if comments then placeholder w_LINECOMMENT (Z.to_N k) else [] in
-      (* line.replace(comment, placeholder): every occurrence of the comment text in the line *)
-      (replace_all cmt ph l, k, Some (Z.to_N k, cmt))
+      (* the comment is replaced where it was found: line[:match.start()] + placeholder + line[match.end():] *)
+      (before ++ ph ++ nl, k, Some (Z.to_N k, cmt))
   | None => (l, count, None)
   end.
 Fixpoint extract_line_comments (comments : bool) (count : Z) (ls : list str)
